@@ -11,7 +11,7 @@
    DESIGN.md C01 Layer C).  Outside the fragment the property is decided per explored program by the extracted
    specs on the real compiler's binary (tools/c01.py): translation validation. *)
 From Coq Require Import ZArith List String Lia.
-From HexVerif Require Import WMap Isa XAst XSem XSemProps XCodegenIsa XCodegenInv XCodegenExpr XCodegenStmt AsmSpec AsmSpecProofs XCodegenBridge.
+From HexVerif Require Import WMap Isa XAst XSem XSemProps XCodegenIsa XCodegenInv XCodegenExpr XCodegenStmt AsmSpec AsmSpecProofs XCodegenBridge XCodegenCall.
 Import ListNotations.
 Local Open Scope Z_scope.
 
@@ -112,12 +112,13 @@ Print Assumptions C01_expr_fragment_partial.
      Ret Normal st'       : it emits exactly the Write events of the outputs XSem added (post), consumes no input,
                             ends just behind the code, in a memory related to st';
      Ret (Returned v) st' : likewise, but ends at the procedure's exit label with areg = v mod 2^32;
-     Halt c st'           : it emits those events and then performs the exit system call with value c mod 2^32;
+     Halt c st'           : it emits those events (hpost: outputs, input position, arrays as XSem says) and then
+                            performs the exit system call with value c mod 2^32;
      Fail _               : nothing is claimed (the program is not well-defined / out of fuel).
    By induction on the fuel, so for any number of loop iterations and any nesting.
    Layout hypotheses: temporaries and outgoing area (sp .. sp+og-1) inside memory, unprotected, not word 1,
    disjoint from each other and from the variables; distinct variables have distinct words; sp+2 usable by `stop`.
-   Missing for C01_full: procedure/function calls and their prologue/epilogue (the frame relation across calls),
+   Missing for C01_full: function calls and calls inside operands (procedure-call statements: see (4c), (4d)),
    get, arrays and strings, the peephole pass, and the layout of whole programs. *)
 Theorem C01_stmt_fragment_partial :
   forall (venv : string -> option loc) (pool : Z -> option Z) (size nslots off0 og : Z) (exitl : label) (ge : genv)
@@ -157,8 +158,7 @@ Print Assumptions C01_stmt_normal_partial.
    yields, having emitted exactly the outputs, and having changed only the caller's outgoing area, the free stack
    Fr below the frame, or words of variables in scope.  If every procedure in pinfo meets call_spec for all smaller
    fuels, the statement theorem holds for bodies that contain such calls (any nesting, loops, recursion through
-   the fuel).  Missing: the proof that the prologue/body/epilogue of each procedure meets call_spec (it needs the
-   statement theorem at the callee's frame: the program-level induction), function calls, calls inside operands. *)
+   the fuel).  That every simple procedure meets call_spec is (4d).  Missing: function calls, calls inside operands. *)
 Theorem C01_stmt_calls_partial :
   forall (pinfo : string -> option pframe) (Fr : Z -> Prop) (Dq : nat -> Prop)
          (venv : string -> option loc) (pool : Z -> option Z) (size nslots off0 og : Z) (exitl : label) (ge : genv)
@@ -179,6 +179,88 @@ Theorem C01_stmt_calls_partial :
     stmt_ok pinfo Fr Dq venv pool size nslots off0 og exitl ge P m0 lab sp f.
 Proof. exact stmt_correct_calls. Qed.
 Print Assumptions C01_stmt_calls_partial.
+
+(* (4d) PARTIAL: the program-level induction -- procedures meet the call specification, so (4c) holds
+   unconditionally for bodies with procedure-call statements, recursion included.
+   Setting.  pinfo is the table of callable procedures.  Each is a PROCEDURE (not a function) that is `simple`: value
+   formals fn and var locals ln only, names pairwise distinct, none of them the name of a global variable (no
+   shadowing of globals; tools/c01.py's generator does produce shadowing, it is outside this theorem).  Its code
+   at its entry label is  pro size ++ cs body ++ epi exitl size  -- xcmp's prologue (LDBM 1; STAI 0; LDAC -size; ADD;
+   STAM 1), the body as `cs` generates it in the frame environment frame_venv (local j at sp+size-1-j, formal i at
+   sp+size+1+i, globals at their DATA words), the exit label and the epilogue (LDBM 1; LDAC size; ADD; STAM 1;
+   LDBI size; BRB); this is the model's lowered procedure (C01_cproc_lowered_shape), i.e. BEFORE the peepholes.
+   Frame numbers: 0 < size <= maxframe, locals <= nslots, nslots + og <= size.  Globals lie below stack_lo, the
+   region [stack_lo, 2^18) is unprotected, word 1 is unprotected, no global is a `val` constant.
+   frame_ok .. sp: a frame of such a procedure at stack pointer sp >= stack_lo whose formals fit below the top of
+   memory.  The relation Rel of that frame carries the stack budget
+        Dq_of: stack_lo + (g_maxdepth ge - depth) * maxframe <= sp,
+   which is preserved into callees because XSem refuses calls beyond g_maxdepth (DepthExceeded = Fail, nothing
+   claimed): so the stack never runs below stack_lo in a run XSem accepts.
+   Claim: for every fuel f and every such frame, stmt_ok holds for the statements of the fragment of (4b) PLUS
+   procedure-call statements p(e1..en) with call-free actuals, p in pinfo (C01_calls_partial); and a call made from
+   such a frame (control at the callee's entry label, link address in areg, actuals in the outgoing words) returns
+   to the link address with the caller's relation restored for the state XSem's `invoke` yields
+   (C01_call_ok_partial).  Proof: strong induction on the fuel, alternating the two statements; the callee's
+   relation is built from XSem.enter (locals undefined, formals = actuals), the caller's is rebuilt from the
+   callee's frame_only.
+   Missing for C01_full: functions and calls inside operands (needs a commutation theorem for XSem's operand
+   evaluation order), array/proc formals, shadowing of globals, size = 0 frames, the peephole pass, get, arrays,
+   strings, the entry stub and the whole-program layout (that DATA/stack/code are placed so that the layout
+   hypotheses hold is checked per program by tools/c08.py's monitor, not proved). *)
+Theorem C01_calls_partial :
+  forall (ge : genv) (gaddr : string -> option Z) (pool : Z -> option Z) (P : Z -> Prop) (m0 : WMap.t)
+         (lab : label -> Z) (pinfo : string -> option pframe) (lay : string -> option playout) (stack_lo maxframe : Z),
+    (forall p pi, pinfo p = Some pi ->
+       pf_isfunc pi = false /\ 0 <= lab (pf_entry pi) /\
+       exists pr fn ln L bc n' endp,
+         find_proc p (g_procs ge) = Some pr /\ lay p = Some L /\ simple_proc gaddr pr fn ln /\ numbers_ok maxframe pr L /\
+         cs pinfo (frame_venv gaddr pr (pl_size L)) pool (pl_size L) (pl_nslots L) (first_temp pr) (pl_og L) (pl_exit L)
+            (body pr) (pl_n0 L) = Some (bc, n') /\
+         code_at (C P m0) lab (lab (pf_entry pi)) (pro (pl_size L) ++ bc ++ epi (pl_exit L) (pl_size L)) endp /\ endp < W) ->
+    (forall x a, gaddr x = Some a -> in_mem a = true /\ ~ P a /\ a <> 1 /\ a < stack_lo /\ assoc x (g_vals ge) = None) ->
+    (forall x y a b, gaddr x = Some a -> gaddr y = Some b -> x <> y -> a <> b) ->
+    1 < stack_lo /\ (forall a, stack_lo <= a < MEMW -> ~ P a) ->
+    ~ P 1 ->
+    (forall v a, pool v = Some a -> P a /\ in_mem a = true /\ rd m0 a = v mod W) ->
+    (forall p pi st n, pinfo p = Some pi -> call_target ge p st <> TSys n) ->
+    0 <= maxframe ->
+    forall f pr fn ln L sp, frame_ok gaddr stack_lo maxframe pr fn ln L sp ->
+      stmt_ok pinfo (Fr_of stack_lo sp) (Dq_of ge stack_lo maxframe sp) (frame_venv gaddr pr (pl_size L)) pool
+              (pl_size L) (pl_nslots L) (first_temp pr) (pl_og L) (pl_exit L) ge P m0 lab sp f.
+Proof. exact stmt_calls_closed. Qed.
+Print Assumptions C01_calls_partial.
+
+Theorem C01_call_ok_partial :
+  forall (ge : genv) (gaddr : string -> option Z) (pool : Z -> option Z) (P : Z -> Prop) (m0 : WMap.t)
+         (lab : label -> Z) (pinfo : string -> option pframe) (lay : string -> option playout) (stack_lo maxframe : Z),
+    (forall p pi, pinfo p = Some pi ->
+       pf_isfunc pi = false /\ 0 <= lab (pf_entry pi) /\
+       exists pr fn ln L bc n' endp,
+         find_proc p (g_procs ge) = Some pr /\ lay p = Some L /\ simple_proc gaddr pr fn ln /\ numbers_ok maxframe pr L /\
+         cs pinfo (frame_venv gaddr pr (pl_size L)) pool (pl_size L) (pl_nslots L) (first_temp pr) (pl_og L) (pl_exit L)
+            (body pr) (pl_n0 L) = Some (bc, n') /\
+         code_at (C P m0) lab (lab (pf_entry pi)) (pro (pl_size L) ++ bc ++ epi (pl_exit L) (pl_size L)) endp /\ endp < W) ->
+    (forall x a, gaddr x = Some a -> in_mem a = true /\ ~ P a /\ a <> 1 /\ a < stack_lo /\ assoc x (g_vals ge) = None) ->
+    (forall x y a b, gaddr x = Some a -> gaddr y = Some b -> x <> y -> a <> b) ->
+    1 < stack_lo /\ (forall a, stack_lo <= a < MEMW -> ~ P a) ->
+    ~ P 1 ->
+    (forall v a, pool v = Some a -> P a /\ in_mem a = true /\ rd m0 a = v mod W) ->
+    (forall p pi st n, pinfo p = Some pi -> call_target ge p st <> TSys n) ->
+    0 <= maxframe ->
+    forall f pr fn ln L sp, frame_ok gaddr stack_lo maxframe pr fn ln L sp ->
+      call_spec pinfo (Fr_of stack_lo sp) (Dq_of ge stack_lo maxframe sp) (frame_venv gaddr pr (pl_size L))
+                (pl_size L) (pl_nslots L) (first_temp pr) (pl_og L) ge P m0 lab sp f.
+Proof. exact call_ok. Qed.
+Print Assumptions C01_call_ok_partial.
+
+(* the code shape assumed in (4d) is the executable model's lowered procedure (exit label 0, body labels from 1,
+   nslots = size), which tools/c01.py compares with `xcmp -S` after the model's peephole pass *)
+Theorem C01_cproc_lowered_shape : forall pinfo gaddr pool p size og code,
+  is_func p = false -> 0 < size -> cproc_lowered pinfo gaddr pool p size og = Some code ->
+  exists bc n', cs pinfo (frame_venv gaddr p size) pool size size (first_temp p) og 0 (body p) 1 = Some (bc, n') /\
+                code = pro size ++ bc ++ epi 0 size.
+Proof. exact cproc_lowered_simple. Qed.
+Print Assumptions C01_cproc_lowered_shape.
 
 (* (5) the hypothesis code_at of (4) is what the assembler side delivers: where the ISA's own decoder reads
    instruction i (for a branch: with its label's position relative to the next instruction as operand) in an image
